@@ -368,6 +368,21 @@ def prop_generic(prop, tier, seed, verdict, tree):
 
 def prop_c16(prop, tier, seed, verdict, tree):
     r = run_random(prop, tier, seed, verdict, tree)
+    # non-verbose logging and states (without injections) that define nothing / only some callbacks
+    for variant in tree.header_variants():
+        b = C.build(tree, "lognv.cpp", ["-O0"], variant=variant, name="lognv")
+        if not b.ok:
+            verdict.harness_error("lognv does not build: %s" % b.log[-300:])
+            continue
+        res = C.run_monitor([b.path, "--prop", prop, "--tier", tier, "--seed", str(seed)], timeout=600)
+        if res.timed_out:
+            verdict.harness_error("lognv timed out (inconclusive)")
+            continue
+        if res.rc != 0:
+            verdict.violation("monitor-process-died|lognv|rc=%s" % res.rc, "lognv ended rc=%s: %s" % (res.rc, res.stderr_tail[-600:]))
+        for v in res.viols:
+            verdict.violation(v["key"], v.get("msg", ""), prop=v.get("prop"))
+        r.stats["lognv_method_records"] = r.stats.get("lognv_method_records", 0) + int(res.stats.get("method_records", 0))
     # bare states: logger attached throughout, so that every delivery to them is seen as a verbose record
     for variant in tree.header_variants():
         built = r.build_many(BARE_CONFIGS, variant)
